@@ -28,13 +28,12 @@ func (d *Data) LoadImages(v dvid.VersionID, offset dvid.Point, filenames []strin
 	loadMutex := ctx.Mutex()
 	loadMutex.Lock()
 
-	// default extents
+	// Extents of the images loaded here.  They start out empty so that they are always posted
+	// below and merged into the extents stored for this version; the current extents of the
+	// instance may stem from another version and do not tell whether this version's cover them.
 	vctx := datastore.NewVersionedCtx(d, v)
-	extents, err := d.GetExtents(vctx)
-	if err != nil {
-		loadMutex.Unlock()
-		return err
-	}
+	var extents dvid.Extents
+	var err error
 
 	// Handle cleanup given multiple goroutines still writing data.
 	load := &bulkLoadInfo{filenames: filenames, versionID: v, offset: offset}
